@@ -13,7 +13,7 @@ HOSTS = [('name', 'host.example'), ('name', 'a-b.c9.example.org'), ('v4', '192.0
 PORTS_OK = [1, 22, 2222, 65535]
 PORTS_BAD = [0, 65536, 70000]
 FAMILY_OPTS = {'none': [], '-4': ['-4'], '-6': ['-6'], '-46': ['-46'], '-64': ['-64'], '-6 -4': ['-6', '-4'], '--ipv4 --ipv6': ['--ipv4', '--ipv6']}
-RESOLVER = ['v4', 'v6', 'v4v6', 'v6v4', 'empty', 'error']
+RESOLVER = ['v4', 'v6', 'v4v6', 'v6v4', 'empty', 'error', 'mixed']
 ADDR4, ADDR6 = '198.51.100.7', '2001:db8::7'
 SOURCES = ['argv', 'file', 'file-messy']
 POPTS = [None, 22, 2022]
@@ -37,7 +37,10 @@ def resolver_answer(kind, host, rmode):
         return [(V4, host)]
     if kind == 'v6':
         return [(V6, host)]
+    # several addresses per family, listed by the resolver in an order that is neither ascending nor descending as text
+    a4, b4, a6, b6 = (V4, '198.51.100.9'), (V4, '198.51.100.10'), (V6, '2001:db8::1'), (V6, '2001:db8::2')
     return {'v4': [(V4, ADDR4)], 'v6': [(V6, ADDR6)], 'v4v6': [(V4, ADDR4), (V6, ADDR6)], 'v6v4': [(V6, ADDR6), (V4, ADDR4)], 'empty': [],
+            'multi46': [a4, b4, a6, b6], 'multi64': [a6, b6, a4, b4], 'mixed': [a4, a6, b4, b6], 'mixed-rev': [b6, b4, a6, a4],
             'error': socket.gaierror(-2, 'Name or service not known')}[rmode]
 
 
@@ -103,7 +106,7 @@ def run_case(case, fmt):
 # options select, not only the first one
 def whole_audit_cases():
     out = []
-    for rmode in ('v4v6', 'v6v4', 'v4', 'v6'):
+    for rmode in ('v4v6', 'v6v4', 'v4', 'v6', 'multi46', 'multi64', 'mixed', 'mixed-rev'):
         for fam in FAMILY_OPTS:
             for popt in (None, 2022):
                 out.append(('whole', rmode, fam, popt))
